@@ -195,9 +195,9 @@ func (s *stringObject) getOwnPropIdx(idx valueInt) Value {
 				enumerable: true,
 			}
 		}
-		return nil
 	}
 
+	// not a character index: an ordinary property (the key may be any integer, also beyond the length)
 	return s.baseObject.getOwnPropStr(idx.string())
 }
 
